@@ -63,6 +63,9 @@ def gen(ctx):
                                                          or o["v"] in ("fdexec", "envrun")):
                 keep.append(h)          # the carry-over family always runs
                 continue
+            if fam == "plain" and len(h["ops"]) == 5 and all(failcore(x) for x in h["ops"][:2]):
+                keep.append(h)          # two failures in a row: always
+                continue
             p = {"gate": 0.5, "race": 0.3, "loss": 0.5, "plain": 0.12}[fam]
             if ctx.rng.random() < p:
                 keep.append(h)
@@ -134,6 +137,14 @@ def judge(ctx, hs, recs):
                 seen[k] = seen.get(k, 0) + 1
     ctx.cov["drift"] = ctx.cov.get("drift", 0) + ndrift
     return nbad, ndrift
+
+
+def failcore(o):
+    if o["k"] != "exec":
+        return False
+    t = (o["v"], o["sa"], o["cb"], o["cancel"])
+    return t in {(v, False, "ok", "none") for v in ("noent", "noentabs", "enoexec", "emptyargs")} | \
+        {("run", False, "fail", "none"), ("run", True, "fail", "none"), ("enoexec", True, "none", "none"), ("sleep", False, "ok", "pre")}
 
 
 def opname(op):
